@@ -58,7 +58,7 @@ def snap_token(isd):
   return tok([(r["rid"], r["leaves"], r["containers"], r["digest"]) for r in project_isd(isd, False) if r["paints"]])
 
 
-NSPECIAL = 12
+NSPECIAL = 14
 
 
 def special_docs(rng, index):
@@ -131,6 +131,17 @@ def special_docs(rng, index):
   d12 = json.loads(json.dumps(d11))
   d12["text"] = [None, None, None, None, "Hello", None, "  "]          # the other way round
   docs.append(d12)
+  # d13, d14: FEW DISTINCT TIMES - the region ends when the only paragraph ends, nothing else is timed; every operation of a
+  # history then handles the same one or two values first and last (whatever one call keeps must not leak into the next)
+  d13 = json.loads(json.dumps(base))
+  d13["nr"] = 1
+  d13["rb"], d13["re"], d13["rdisp"], d13["ranim"], d13["rbg"] = [N], [8], [""], [[]], ["always"]
+  d13["reg"] = [0, 1, 0, 0, 0]
+  docs.append(d13)
+  d14 = json.loads(json.dumps(d13))
+  d14["b"], d14["e"] = [N, N, N, N, N], [10, N, N, N, N]               # only ends: the body and the region end together
+  d14["re"] = [10]
+  docs.append(d14)
   for d in docs:
     for key, n in (("styles", d["n"]), ("anim_styles", d["n"]), ("rstyles", d["nr"]), ("ranim_styles", d["nr"])):
       d.setdefault(key, [[] for _ in range(n)])
